@@ -26,6 +26,7 @@ package types
 
 //@ func (k RollingseedKeeper) GetRollingSeed
 //@ trusted
+//@ ensures result == rollingSeedOf(Other)
 
 // ---- C11: what a group signs ---------------------------------------------------------------------------
 // content kinds: whether a kind is module-internal is a constant per concrete type (ground check
